@@ -101,7 +101,9 @@ def gen_case(seed, k):
     td = G.random_type(rng, ts, G.Opts(p_attr=0.9, bounds=False, rich=rng.random() < 0.5, generics=True, p_partial=0.0))
     if not any(p["kind"] == "ty" for p in td.params):
         return None
-    td.notes["tykind"] = {f.ty: f.kind for _, f in td.all_fields()}
+    if rng.random() < 0.15:
+        G.add_self_recursive_field(rng, td)
+    td.notes["tykind"] = {f.ty: f.kind for _, f in td.all_fields() if f.kind.key != "SelfRec"}
     text = S.render(td, rng_for(seed, PROP, "spell", k), extras=False)
     typarams = [p["name"] for p in td.params if p["kind"] == "ty"]
     probes = []   # (trait, target, args)
